@@ -2793,7 +2793,7 @@ class LinearOperator(object):
         from linear_operator.operators.zero_linear_operator import ZeroLinearOperator
 
         if isinstance(other, ZeroLinearOperator):
-            return self
+            return other + self  # self, broadcast to the common shape
         elif isinstance(other, DiagLinearOperator):
             return AddedDiagLinearOperator(self, other)
         elif isinstance(other, RootLinearOperator):
